@@ -782,7 +782,7 @@ func runListEdit(k *vf.Case) {
 
 func main() {
 	vf.Main("C01", "exploration", func(c *vf.Ctx) {
-		c.Rule = "seeded concurrent histories against the real BatchSpanProcessor: producers x spans, flushers (live/short-deadline/cancelled contexts), mid-run and concurrent Shutdown callers, configurations queue{0 (blocking only),1,2,3,8,64,2048} x batch{1,2,3,7,64,512} x timeout{1ms,5ms,1h} x exportTimeout{0,1ms,1s} x blocking, exporters instant/slow/erroring/ctx-blocking/gate-blocked, GOMAXPROCS{2,4,16}; one history at a time per child process so the SDK's total_dropped debug record is attributable; exporters re-read their batch before returning; list-edit family (processor list edited while End is parked in a gate processor). distinct = distinct (configuration, drops seen, flush||export overlap, shutdown||End overlap) signatures"
+		c.Rule = "seeded concurrent histories against the real BatchSpanProcessor: producers x spans, flushers (live/short-deadline/cancelled contexts), mid-run and concurrent Shutdown callers, configurations queue{0 (blocking only),1,2,3,8,64,2048} x batch{1,2,3,7,64,512} x timeout{1ms,5ms,1h} x exportTimeout{0,1ms,1s} x blocking, exporters instant/slow/erroring/ctx-blocking/gate-blocked, GOMAXPROCS{2,4,16}; one history at a time per child process so the SDK's total_dropped debug record is attributable; exporters re-read their batch before returning; list-edit family (processor list edited while End is parked in a gate processor); scripted export failures that wrap context.Canceled / DeadlineExceeded. distinct = distinct (configuration, drops seen, flush||export overlap, shutdown||End overlap) signatures"
 		c.Assume = []string{"ForceFlush calls overlapping or following a Shutdown are covered by the Shutdown's guarantee (by design they return nil early)", "quiet-after-Shutdown and visibility are asserted for calls that returned nil", "exact conservation uses the SDK's own total_dropped debug record; per-call visibility in dropping mode with possible overflow is a count inequality"}
 		if c.IsChild() || os.Getenv("VF_REPLAY_ISOLATE") == "" {
 			otel.SetLogger(logr.New(theSink))
